@@ -8,7 +8,7 @@ From Supp Require Import Model.PyCore Model.Reach Model.Sem Model.SemX
 From Supp Require Import Model.ReachX Proofs.ReachXBridge.
 From Supp Require Import Model.Nested Proofs.NestedProofs Model.NestedRun Proofs.NestedRunProofs.
 From Supp Require Import Model.NestedCls Proofs.NestedClsProofs.
-From Supp Require Import Model.SemXS Model.NestedRunS Proofs.NestedRunSProofs.
+From Supp Require Import Model.SemXS Model.NestedRunS Proofs.NestedRunSProofs Model.NestedUsed Proofs.NestedUsedProofs.
 
 (* Every run of every command (no restriction: return, break, continue, exceptions raised
    anywhere and caught by any enclosing try, finally clauses), from any state whose bound names
@@ -187,3 +187,17 @@ Example C01_chain_reads_sound_example :
   forallb okx [ex_outer; ex_inner] = true /\
   map snd (run_chain_s 20 [] [ex_outer; ex_inner] renv0 [0%nat]) = [[]; [(10, Some 1); (11, Some 3)]].
 Proof. split; vm_compute; reflexivity. Qed.
+
+(* ... and no false "unused" across scopes (Model/NestedUsed.v: lint's usage marking over a chain, tied
+   to lint's W01 sites by part D): a binding the marking leaves unused is read by no execution of the
+   chain - neither in its own function nor through a closure. *)
+Theorem C01_chain_no_false_unused : forall fuel bodies ds d,
+  forallb okx bodies = true -> In d (unused_chain bodies) ->
+  forall e, In e (run_chain_s fuel [] bodies renv0 ds) -> forall r, ~ In (r, Some d) (snd e).
+Proof. exact chain_no_false_unused. Qed.
+Print Assumptions C01_chain_no_false_unused.
+
+(* Non-vacuity: main's x (site 1) is used only by inner's free read; main's y (site 2) is shadowed by
+   inner's own y and stays unused *)
+Example C01_chain_unused_example : unused_chain [ex_outer; ex_inner] = [2%N].
+Proof. vm_compute. reflexivity. Qed.
